@@ -118,7 +118,7 @@ static int spec_density(double density, double *used)
 {
   if (g_kind == 2 && density <= 0.0) density = g_nist_density;
   *used = density;
-  return density > 0.0;
+  return !(density <= 0.0);   /* "positive", phrased with the comparison the code uses (equivalent for the finite densities quantified over) */
 }
 /* delta = sum w_i K (Z_i + f'_i) / A_i / E^2 ; mu = sum mu_i w_i ; *failed when an elemental function fails */
 static void spec_sums(double E, int need_fi, int need_cs, double *delta, double *mu, int *failed)
@@ -182,3 +182,27 @@ LEMMA(lemma_Refractive_Index)
               "Refractive_Index: real and imaginary parts are exactly the values of the _Re and _Im formulas"); }
   }
 }
+
+/* NIST compounds, relational form: resolving the name through the NIST catalogue gives bit-for-bit what resolving it as a
+ * formula with the same composition gives, with the catalogue's density standing in for a non-positive one.  Both sides
+ * are runs of the real code (the formula run is the one the lemmas above compare with the statement), so they are
+ * syntactically equal whatever the composition is.                                                                  */
+#define REFR_NIST_LEMMA(name, TYPE, CALL, EQ) \
+LEMMA(lemma_##name##_nist_as_formula) \
+{ \
+  ND_ENERGY(E); ND_FINITE(density); \
+  xrl_error *e1 = NULL, *e2 = NULL; TYPE a, b; double d2; \
+  ghost_compound(); \
+  g_kind = 2; g_watch = &e1; GHOST_RESET(); g_parser_calls = g_nist_calls = 0; \
+  a = CALL(NAME, E, density, &e1); \
+  VASSERT(g_cd_live == 0 && g_cdn_live == 0, "the catalogue copy is released on every exit (no leak)"); \
+  d2 = density; if (density <= 0.0) d2 = g_nist_density; \
+  g_kind = 1; g_watch = &e2; g_parser_calls = g_nist_calls = 0; \
+  b = CALL(NAME, E, d2, &e2); \
+  VASSERT(EQ, #name ": a NIST compound gives exactly the value of the formula with the same composition, its own density standing in for a non-positive one"); \
+  VASSERT((e1 == NULL) == (e2 == NULL), #name ": ... and fails exactly when that formula call fails"); \
+  if (e1 == NULL) { VCANARY(#name " nist defined"); } else { VCANARY(#name " nist fails"); } \
+}
+REFR_NIST_LEMMA(Refractive_Index_Re, double, Refractive_Index_Re, SAME(a, b))
+REFR_NIST_LEMMA(Refractive_Index_Im, double, Refractive_Index_Im, SAME(a, b))
+REFR_NIST_LEMMA(Refractive_Index, xrlComplex, Refractive_Index, SAME(a.re, b.re) && SAME(a.im, b.im))
